@@ -28,7 +28,7 @@ import (
 )
 
 func init() {
-	register("hooks (server/plugin.go, server/hook.go, server/server.go initPluginHooks)", hookFacts)
+	register("Hooks", "hooks (server/plugin.go, server/hook.go, server/server.go initPluginHooks)", hookFacts)
 }
 
 type hookExtractor struct {
